@@ -35,6 +35,8 @@ func (eval Evaluator) Average(ctIn *rlwe.Ciphertext, logBatchSize int, opOut *rl
 
 	level := utils.Min(ctIn.Level(), opOut.Level())
 
+	opOut.Resize(opOut.Degree(), level)
+
 	n := 1 << (ctIn.LogDimensions.Cols - logBatchSize)
 
 	// pre-multiplication by n^-1
@@ -47,6 +49,10 @@ func (eval Evaluator) Average(ctIn *rlwe.Ciphertext, logBatchSize int, opOut *rl
 		s.MulScalarMontgomery(ctIn.Value[0].Coeffs[i], invN, opOut.Value[0].Coeffs[i])
 		s.MulScalarMontgomery(ctIn.Value[1].Coeffs[i], invN, opOut.Value[1].Coeffs[i])
 	}
+
+	// The inner sum is evaluated in place on opOut: it must see the metadata of ctIn
+	// (packing, NTT flag), which are also the metadata of the result.
+	*opOut.MetaData = *ctIn.MetaData
 
 	return eval.InnerSum(opOut, 1<<logBatchSize, n, opOut)
 }
